@@ -92,9 +92,25 @@ pub fn c19_exitstatus_to_processend() {
         let sig = low7;
         assert!(pe == ProcessEnd::ExitSignal(Signal::from(sig)), "C19: terminating signal not preserved");
     } else if continued {
-        assert!(matches!(pe, ProcessEnd::Continued | ProcessEnd::Success), "C19: continued status misreported");
+        assert!(pe == ProcessEnd::Continued, "C19: continued status not reported as Continued");
     } else if stopped {
-        assert!(!matches!(pe, ProcessEnd::ExitError(_) | ProcessEnd::ExitSignal(_)), "C19: stopped status reported as exit");
+        let stopsig = (raw >> 8) & 0xff;
+        if stopsig != 0 {
+            assert!(matches!(pe, ProcessEnd::ExitStop(s) if s.get() == stopsig), "C19: stopped status not reported as ExitStop with its signal");
+        }
+    }
+    // "preserves success": Success is reported for a successful status only (a stop signal of
+    // 0 cannot be represented and is left unspecified)
+    // Raw values that are not a 16-bit exited / signalled / stopped / continued encoding (e.g. an
+    // exit with the core bit, low byte 0xff, bits above 16) are not wait statuses any OS
+    // produces; for those only the assertions above apply.
+    let valid = (0..=0xffff).contains(&raw)
+        && ((exited && raw & 0xff == 0) || (signaled && raw <= 0xff) || stopped || continued);
+    if valid && pe == ProcessEnd::Success {
+        assert!(es.success() || (stopped && (raw >> 8) & 0xff == 0), "C19: a non-successful wait status was reported as Success");
+    }
+    if es.success() {
+        assert!(pe == ProcessEnd::Success, "C19: a successful status was not reported as Success");
     }
 }
 
